@@ -329,6 +329,11 @@ class Moralize(Contract):
     def snapshot(self, ex, st, args):
         return graph_snapshot(args["self"])
 
+    def make_result(self, ex, st, args):
+        from vf.pyvc.lib import RelSort
+        from vf.pyvc.engine import Obj
+        return Obj("UndirectedGraph", {"_nodes": fresh("mg_nodes", set_sort(Atom)), "_E": fresh("mg_E", RelSort), "_directed": False})
+
     def spec_edges(self, E, over):
         c = fresh("c", Atom)
         return lambda a, b: z3.Or(E[a, b], E[b, a], z3.And(a != b, z3.Exists([c], z3.And(over[c], E[a, c], E[b, c]))))
